@@ -66,6 +66,13 @@ def gen_cases(r, n_dec, n_enc, thorough):
         cap = r.choice([4096, 4096, 4096, 1024, 64, 32, 16, 8, 0, r.randint(0, 80)])
         m.update({"op": "enc", "cap": cap})
         enc.append(m)
+        if i < nk or r.random() < 0.15:
+            # the buffer boundary: exactly the encoded line, one byte less (no room for the newline), one more
+            import copy
+            for rel in (-1, 0, 1):
+                m2 = copy.deepcopy(m)
+                m2.update({"cap": 4096, "cap_rel": rel})
+                enc.append(m2)
     if thorough:
         # exhaustive: all values of length <= 3 over a 12-symbol delimiter alphabet, as a parameter value
         alpha = [b"\\", b'"', b"'", b":", b"*", b" ", b"=", b"a", b"\t", b"\x00", b"1", b"\r"]
@@ -210,7 +217,7 @@ def run(tier, replay=None):
                     elif o["r"] == "invalid":
                         terms.append("true")
                     else:
-                        terms.append("enc_case %s %d%%nat %s" % (cg.coq_msg(c), c["cap"], cg.coq_enc_obs(o)))
+                        terms.append("enc_case %s %d%%nat %s" % (cg.coq_msg(c), o.get("cap", c["cap"]), cg.coq_enc_obs(o)))
             bad, cout = coq_eval(PRELUDE, terms, kind="bool", tag=tag + "conf")
             if bad is None:
                 broken.append("correspondence could not be evaluated: " + cout[-800:])
